@@ -24,6 +24,9 @@ import (
 
 	"github.com/go-sql-driver/mysql"
 
+	"seata.apache.org/seata-go/pkg/protocol/branch"
+	"seata.apache.org/seata-go/pkg/rm"
+	"seata.apache.org/seata-go/pkg/rm/tcc"
 	"seata.apache.org/seata-go/pkg/rm/tcc/fence"
 	"seata.apache.org/seata-go/pkg/rm/tcc/fence/enum"
 	"seata.apache.org/seata-go/pkg/tm"
@@ -156,10 +159,68 @@ var viaDriver bool
 var fenceDB *sql.DB
 
 func deliver(a Action) error {
-	if viaDriver {
+	switch {
+	case viaRM != "" && a.Op != "P":
+		return deliverRM(a)
+	case viaDriver:
 		return deliverDriver(a)
 	}
 	return deliverAPI(a)
+}
+
+// viaRM selects the third path: commit and rollback deliveries go through the TCC resource manager (BranchCommit /
+// BranchRollback of the registered action, which opens its transaction on the fence driver), the way the phase-two
+// processors call it - "fresh": with a new background context per delivery, "shared": with one seata context that the
+// caller keeps and hands to every delivery. Prepare goes through the fence driver as in the second path.
+var viaRM string
+var sharedCtx context.Context
+
+type fenceAction struct{}
+
+func (fenceAction) GetActionName() string                                    { return "fenceAct" }
+func (fenceAction) Prepare(ctx context.Context, p interface{}) (bool, error) { return true, nil }
+func (fenceAction) twoPhase(ctx context.Context, bac *tm.BusinessActionContext, col string) (bool, error) {
+	key := fmt.Sprint(bac.ActionContext["key"])
+	tx, err := fenceDB.BeginTx(ctx, nil)
+	if err != nil {
+		return false, fmt.Errorf("begin: %w", err)
+	}
+	if _, e := tx.ExecContext(ctx, "UPDATE biz SET "+col+" = "+col+" + 1 WHERE k = ?", key); e != nil {
+		tx.Rollback()
+		return false, e
+	}
+	if err := tx.Commit(); err != nil {
+		return false, err
+	}
+	return true, nil
+}
+func (a fenceAction) Commit(ctx context.Context, bac *tm.BusinessActionContext) (bool, error) {
+	return a.twoPhase(ctx, bac, colOf["C"])
+}
+func (a fenceAction) Rollback(ctx context.Context, bac *tm.BusinessActionContext) (bool, error) {
+	return a.twoPhase(ctx, bac, colOf["R"])
+}
+
+func deliverRM(a Action) (err error) {
+	b := branches[a.Branch]
+	defer func() {
+		if r := recover(); r != nil {
+			err = fmt.Errorf("panic: %v", r)
+		}
+	}()
+	ctx := context.Background()
+	if viaRM == "shared" {
+		ctx = sharedCtx
+	}
+	res := rm.BranchResource{BranchType: branch.BranchTypeTCC, Xid: b.Xid, BranchId: b.ID, ResourceId: "fenceAct",
+		ApplicationData: []byte(fmt.Sprintf(`{"actionContext":{"key":%q}}`, b.Key))}
+	mgr := rm.GetRmCacheInstance().GetResourceManager(branch.BranchTypeTCC)
+	if a.Op == "C" {
+		_, err = mgr.BranchCommit(ctx, res)
+	} else {
+		_, err = mgr.BranchRollback(ctx, res)
+	}
+	return err
 }
 
 func deliverDriver(a Action) (err error) {
@@ -562,6 +623,20 @@ func Run(r *rep.Run) {
 	}
 	dpaths := bfs(r, nb, depth)
 	faults(r, dpaths, nb)
+	// ... and with commit / rollback deliveries through the TCC resource manager
+	if _, err := tcc.NewTCCServiceProxy(fenceAction{}); err != nil {
+		r.Broken = "register fence action: " + err.Error()
+		return
+	}
+	for _, mode := range []string{"fresh", "shared"} {
+		viaRM, pathTag = mode, "rm-"+mode+":"
+		sharedCtx = tm.InitSeataContext(context.Background())
+		rpaths := bfs(r, nb, depth)
+		if mode == "fresh" {
+			faults(r, rpaths, nb)
+		}
+	}
+	viaRM = ""
 	viaDriver, pathTag = false, ""
 }
 
